@@ -1,0 +1,156 @@
+//go:build verif
+
+package object
+
+// Verification hooks (add-only, built only with -tags verif): dumps of unexported state and single-step
+// wrappers around the bodies of Client.run's select cases. No behaviour change.
+
+import (
+	enc "github.com/named-data/ndnd/std/encoding"
+	bolt "go.etcd.io/bbolt"
+)
+
+// VerifMemNode is one node of the memory store trie.
+type VerifMemNode struct {
+	Path        enc.Name
+	HasWire     bool
+	Wire        []byte
+	Version     uint64
+	NumChildren int
+	ChildrenNil bool
+}
+
+func verifDumpMem(n *memoryStoreNode, path enc.Name, out *[]VerifMemNode) {
+	p := make(enc.Name, len(path))
+	copy(p, path)
+	*out = append(*out, VerifMemNode{
+		Path: p, HasWire: n.wire != nil, Wire: n.wire, Version: n.version,
+		NumChildren: len(n.children), ChildrenNil: n.children == nil,
+	})
+	for _, c := range n.children {
+		verifDumpMem(c, append(p, c.comp), out)
+	}
+}
+
+// VerifDump returns every node of the committed trie (root first, children in map order) and of the open transaction.
+func (s *MemoryStore) VerifDump() (root []VerifMemNode, tx []VerifMemNode, inTx bool) {
+	s.mutex.RLock()
+	defer s.mutex.RUnlock()
+	verifDumpMem(s.root, enc.Name{}, &root)
+	if s.tx != nil {
+		inTx = true
+		verifDumpMem(s.tx, enc.Name{}, &tx)
+	}
+	return
+}
+
+// VerifDump returns all committed key/value pairs of the bolt bucket in cursor order.
+func (s *BoltStore) VerifDump() (keys [][]byte, vals [][]byte) {
+	s.db.View(func(tx *bolt.Tx) error {
+		b := tx.Bucket(BoltBucket)
+		if b == nil {
+			return nil
+		}
+		c := b.Cursor()
+		for k, v := c.First(); k != nil; k, v = c.Next() {
+			keys = append(keys, append([]byte(nil), k...))
+			vals = append(vals, append([]byte(nil), v...))
+		}
+		return nil
+	})
+	return
+}
+
+// VerifStream is a copy of the unexported fields of a ConsumeState.
+type VerifStream struct {
+	Name      enc.Name
+	FetchName enc.Name
+	Wnd       [3]int
+	SegCnt    int
+	Complete  bool
+	Err       error
+	Have      []bool
+	HasMeta   bool
+}
+
+func (a *ConsumeState) VerifState() VerifStream {
+	have := make([]bool, len(a.content))
+	for i, b := range a.content {
+		have[i] = b != nil
+	}
+	return VerifStream{Name: a.name, FetchName: a.fetchName, Wnd: a.wnd, SegCnt: a.segCnt,
+		Complete: a.complete, Err: a.err, Have: have, HasMeta: a.meta != nil}
+}
+
+// VerifFetcher returns the segment fetcher's bookkeeping.
+func (c *Client) VerifFetcher() (streams []*ConsumeState, rrIndex, outstanding, window int) {
+	streams = append(streams, c.fetcher.streams...)
+	return streams, c.fetcher.rrIndex, c.fetcher.outstanding, c.fetcher.window
+}
+
+// VerifQueues returns the number of queued items in outpipe, seginpipe, segfetch, segcheck.
+func (c *Client) VerifQueues() (out, segin, fetch, check int) {
+	return len(c.outpipe), len(c.seginpipe), len(c.segfetch), len(c.segcheck)
+}
+
+// Channels of VerifStep.
+const (
+	VerifChanOut = iota
+	VerifChanSegIn
+	VerifChanFetch
+	VerifChanCheck
+)
+
+// VerifStep performs what one iteration of Client.run would do if its select picked the given channel:
+// it receives one item without blocking and runs the same handler. Returns false if the channel was empty.
+// It must only be used on a client whose run goroutine was not started (no Start call).
+func (c *Client) VerifStep(ch int) bool {
+	switch ch {
+	case VerifChanOut:
+		select {
+		case args := <-c.outpipe:
+			c.expressRImpl(args)
+			return true
+		default:
+		}
+	case VerifChanSegIn:
+		select {
+		case args := <-c.seginpipe:
+			c.fetcher.handleData(args.args, args.state)
+			return true
+		default:
+		}
+	case VerifChanFetch:
+		select {
+		case state := <-c.segfetch:
+			c.fetcher.add(state)
+			return true
+		default:
+		}
+	case VerifChanCheck:
+		select {
+		case <-c.segcheck:
+			c.fetcher.doCheck()
+			return true
+		default:
+		}
+	}
+	return false
+}
+
+// VerifConsume is Client.Consume returning the state object so that a harness can inspect it.
+func (c *Client) VerifConsume(name enc.Name, callback ConsumeCallback) *ConsumeState {
+	state := &ConsumeState{
+		name:      name,
+		callback:  callback,
+		err:       nil,
+		content:   make(enc.Wire, 0),
+		complete:  false,
+		meta:      nil,
+		fetchName: name,
+		wnd:       [3]int{0, 0},
+		segCnt:    -1,
+	}
+	c.consumeObject(state)
+	return state
+}
